@@ -10,9 +10,11 @@ import os
 
 import vf
 
-# The check fails on the unchanged tree (genuine findings, see the lead's notes / final report);
-# the lead flips this after deciding between a fix in /repo and known_findings.json.
-READY = False or os.environ.get("VERIF_DBLAYERS_READY") == "1"
+# History: the first runs found (A) CacheDB/State without has_storage, (B) insert_account_info on a cached
+# NotExisting account, (C) selfdestruct-then-touch resurrecting storage in CacheDB -- fixed in /repo (43233319,
+# f5b48490, e5de2ad1; 8e6c24aa makes State::code_by_hash serve committed code) -- and (D) State treating a changed
+# code-less nonce-0 account as storage-known, recorded in known_findings.json.
+READY = True
 
 SERVES = {
     "C20": dict(
@@ -36,10 +38,11 @@ SERVES = {
               "history is detected.",
         note="Trusted: DbLayers.tla as the statement of the property; the adapter harness/src/bin/dblayers.rs "
              "and its reference database RefDb. Assumptions: State is only judged on histories that follow "
-             "its documented caller protocol (basic(a) before storage/has_storage/commit of a); a code hash "
-             "known only from a commit is asked by hash only of layers that index committed code by hash "
-             "(State serves it through basic().code); absent and empty account are identified only for an "
-             "account that a commit left empty (EIP-161); DatabaseComponents is not judged on has_storage "
+             "its documented caller protocol (basic(a) before storage/has_storage/commit of a); absent and "
+             "empty account are identified only for an account that a commit left empty (EIP-161), that got the "
+             "empty info by insert_account_info, or that was absent when replace_account_storage was called; "
+             "has_storage is not asked where a written zero covers a non-zero slot of the underlying data; "
+             "DatabaseComponents is not judged on has_storage "
              "because its component traits have no such query.",
         ref="DESIGN.md section 3, C20"),
 }
@@ -79,15 +82,15 @@ LAYERS = {
     "cachedb_mutref": L(commits=True, inserts=True, thin=True), "cachedb_wrap": L(commits=True, inserts=True, thin=True),
     "cachedb_boxed": L(commits=True, inserts=True, thin=True),
     "cachedb2": L(commits=True, inserts=True), "cachedb2_ref": L(commits=True, inserts=True, thin=True),
-    # State: commit; documented caller protocol; committed code is served through basic().code
-    "state": L(commits=True, protocol=True, ccode=False), "state_bundle": L(commits=True, protocol=True, ccode=False),
-    "state_wrapref": L(commits=True, protocol=True, ccode=False),
-    "state_boxed": L(commits=True, protocol=True, ccode=False, thin=True),
-    "state_cachedb": L(commits=True, protocol=True, ccode=False, thin=True),
+    # State: commit; documented caller protocol
+    "state": L(commits=True, protocol=True), "state_bundle": L(commits=True, protocol=True),
+    "state_wrapref": L(commits=True, protocol=True),
+    "state_boxed": L(commits=True, protocol=True, thin=True),
+    "state_cachedb": L(commits=True, protocol=True, thin=True),
     # the empty world
     "emptydb": L("empty"), "emptydb_ref": L("empty", thin=True),
     "inmemorydb": L("empty", commits=True, inserts=True), "inmemorydb_ref": L("empty", commits=True, inserts=True, thin=True),
-    "state_empty": L("empty", commits=True, protocol=True, ccode=False),
+    "state_empty": L("empty", commits=True, protocol=True),
 }
 
 ALL_BLOCKS = "{1, 2, 255, 256, 257, 258, 600}"
@@ -227,14 +230,16 @@ def run(ctx, pid):
         "State (state.rs 'Account is guaranteed to be loaded', cache.rs 'All accounts should be present inside cache') is "
         "judged only on histories where basic(a) precedes storage(a,_), has_storage(a) and every commit mentioning a; "
         "the other layers are judged on all histories",
-        "a code hash that arrived only through a commit is asked by hash only of CacheDB-based layers; State serves "
-        "committed code through basic().code (the interpreter's load_code never needs code_by_hash for it); the "
-        "account-code query (basic, then code_by_hash if the info has no bytes) is judged on every layer",
-        "absent and empty (balance 0, nonce 0, no code) are identified for basic() only on an account that a commit "
-        "left empty (EIP-161 deletion vs fork-agnostic CacheDB); the model does not empty an account that still has storage",
+        "absent and empty (balance 0, nonce 0, no code) are identified for basic() only on an account that (a) a commit "
+        "left empty (EIP-161 deletion vs fork-agnostic CacheDB), (b) got the empty info by insert_account_info, or (c) "
+        "was absent when replace_account_storage gave it storage (CacheDB then holds an empty account); the model does "
+        "not empty an account that still has storage",
         "commits contain only changes the EVM can produce: nonce never decreases, code changes only by creation, "
         "creation only at nonce 0 / no code, an account becomes empty only if it was empty or absent",
         "DatabaseComponents is not judged on has_storage: its State/StateRef component traits offer no such query",
+        "has_storage is not asked where a zero written through the layer covers a non-zero slot of the underlying data "
+        "(an overlay of slots cannot decide it; needs insert_account_storage(a,k,0) or an SSTORE at an address whose "
+        "has-storage answer the EVM never uses)",
         "underlying data: four account kinds (contract with storage, EOA, absent, code-less nonce-0 account with "
         "storage), 2 slots, 3 codes; larger data is not explored",
     ]
